@@ -137,3 +137,27 @@ func verifCrashPoint(s *Scorch, name string) {
 
 // VerifPath is the directory of the index ("" for an in-memory index).
 func (s *Scorch) VerifPath() string { return s.path }
+
+// VerifSnapshotFiles lists the base names of the segment files used by an index
+// reader obtained from a scorch index (nil for any other reader); in-memory
+// segments have no file.
+func VerifSnapshotFiles(r interface{}) []string {
+	is, ok := r.(*IndexSnapshot)
+	if !ok {
+		return nil
+	}
+	var rv []string
+	for _, ss := range is.segment {
+		if ps, ok := ss.segment.(interface{ Path() string }); ok {
+			p := ps.Path()
+			for i := len(p) - 1; i >= 0; i-- {
+				if p[i] == '/' || p[i] == '\\' {
+					p = p[i+1:]
+					break
+				}
+			}
+			rv = append(rv, p)
+		}
+	}
+	return rv
+}
